@@ -97,3 +97,50 @@ Proof.
   replace (S (pred (Z.to_nat (arc_segments posX posY endX endY i j cw)))) with (Z.to_nat (arc_segments posX posY endX endY i j cw)) in SP by lia.
   rewrite (arc_last_point posX posY endX endY i j cw H On) in SP. exact SP.
 Qed.
+
+(** *** cover: every point of the arc is within one unit of a tested point *)
+(** the point of the arc a fraction [u] of the sweep after the start *)
+Definition arc_at (posX posY endX endY i j : R) (cw : bool) (u : R) : R * R :=
+  let a := atan2 (- j) (- i) + u * arc_sweep posX posY endX endY i j cw in
+  (posX + i + cos a * hypot i j, posY + j + sin a * hypot i j).
+
+Theorem arc_cover posX posY endX endY i j cw u : 0 <= u <= 1 ->
+  exists k : nat, (k <= Z.to_nat (arc_segments posX posY endX endY i j cw))%nat /\
+    let '(px, py) := arc_at posX posY endX endY i j cw u in
+    let '(sx, sy) := arc_point posX posY endX endY i j cw k in
+    hypot (px - sx) (py - sy) <= 1.
+Proof.
+  intros (U0 & U1). unfold arc_at, arc_point. cbv zeta.
+  set (d := arc_sweep posX posY endX endY i j cw). set (n := arc_segments posX posY endX endY i j cw).
+  set (t0 := atan2 (- j) (- i)). set (rho := hypot i j).
+  pose proof (hypot_nonneg i j) as RP. fold rho in RP.
+  pose proof (arc_segments_bound posX posY endX endY i j cw) as NB. fold d n rho in NB.
+  pose proof (arc_segments_ge1 posX posY endX endY i j cw) as N1. fold n in N1.
+  assert (NP : 1 <= IZR n) by (apply IZR_le in N1; exact N1).
+  (* the sample just before the point: m <= u * n < m + 1 *)
+  set (m := (up (u * IZR n) - 1)%Z).
+  destruct (archimed (u * IZR n)) as (A1 & A2).
+  assert (M1 : IZR m <= u * IZR n < IZR m + 1) by (unfold m; rewrite minus_IZR; lra).
+  assert (M0 : (0 <= m)%Z).
+  { apply le_IZR. destruct (Z_lt_le_dec m 0) as [L|L]; [|apply IZR_le; exact L].
+    exfalso. assert (IZR m <= -1) by (apply IZR_le; lia). assert (0 <= u * IZR n) by nra. lra. }
+  assert (MN : (m <= n)%Z).
+  { apply le_IZR. assert (u * IZR n <= IZR n) by nra. lra. }
+  exists (Z.to_nat m). split; [lia|].
+  assert (KM : INR (Z.to_nat m) = IZR m) by (rewrite INR_IZR_INZ, Z2Nat.id by lia; reflexivity).
+  rewrite KM.
+  set (a := t0 + u * d). set (b := t0 + IZR m * (d / IZR n)).
+  replace (posX + i + cos a * rho - (posX + i + cos b * rho)) with (rho * cos a - rho * cos b) by lra.
+  replace (posY + j + sin a * rho - (posY + j + sin b * rho)) with (rho * sin a - rho * sin b) by lra.
+  apply Rle_trans with (rho * Rabs (a - b)); [apply chord_le_arc; exact RP|].
+  assert (AB : a - b = (u * IZR n - IZR m) * (d / IZR n)) by (unfold a, b; field; lra).
+  rewrite AB, Rabs_mult. rewrite (Rabs_right (u * IZR n - IZR m)) by lra.
+  unfold Rdiv. rewrite Rabs_mult, (Rabs_right (/ IZR n)) by (left; apply Rinv_0_lt_compat; lra).
+  assert (Q : rho * (Rabs d * / IZR n) <= 1).
+  { apply Rmult_le_reg_r with (IZR n); [lra|]. rewrite Rmult_1_l.
+    replace (rho * (Rabs d * / IZR n) * IZR n) with (Rabs d * rho) by (field; lra). exact NB. }
+  assert (Q0 : 0 <= rho * (Rabs d * / IZR n)).
+  { apply Rmult_le_pos; [exact RP|]. apply Rmult_le_pos; [apply Rabs_pos | left; apply Rinv_0_lt_compat; lra]. }
+  replace (rho * ((u * IZR n - IZR m) * (Rabs d * / IZR n))) with ((u * IZR n - IZR m) * (rho * (Rabs d * / IZR n))) by ring.
+  nra.
+Qed.
